@@ -1,6 +1,6 @@
 (* AioTheorems: the statements used by Properties_C13.v, assembled from AioLemmas / AioRoundtrip / AioIntegrity / AioProgress. *)
 From Coq Require Import ZArith NArith List Bool Lia.
-From LT Require Import gen_Consts CodecModel CodecLemmas AioModel AioLemmas AioRoundtrip AioIntegrity AioProgress.
+From LT Require Import gen_Consts CodecModel CodecLemmas AioModel AioLemmas AioRoundtrip AioIntegrity AioProgress AioFits.
 Import ListNotations.
 Local Open Scope Z_scope.
 
@@ -157,7 +157,7 @@ Theorem eventually_settled P c nonce evs os st pipe n os2 st2 p2 : (0 < blklen P
   run P c nonce rstate0 [] evs = (os, st, pipe) ->
   (mu st pipe < n)%nat ->
   run P c nonce st pipe (repeat Call n) = (os2, st2, p2) ->
-  stream_deliveries P c nonce st2 p2 = [] \/ stuck st2 p2.
+  stream_deliveries P c nonce st2 p2 = [] \/ stuck P c st2 p2.
 Proof.
   intros B R M R2.
   destruct (frag_invariant P c nonce evs rstate0 [] os st pipe (wf0 P c B) R) as [_ W].
@@ -165,14 +165,14 @@ Proof.
   exact (settle P c nonce n st pipe os2 st2 p2 W FO M R2).
 Qed.
 
-Theorem roundtrip_eventually P c iv ms w sst evs os st pipe n os2 st2 p2 :
+Theorem roundtrip_eventually_or_stuck P c iv ms w sst evs os st pipe n os2 st2 p2 :
   prims_ok P -> length iv = blklen P ->
   send_all P c iv (sstate0 c iv) ms = Some (w, sst) ->
   fed evs = w ->
   run P c iv rstate0 [] evs = (os, st, pipe) ->
   (mu st pipe < n)%nat ->
   run P c iv st pipe (repeat Call n) = (os2, st2, p2) ->
-  delivered os ++ delivered os2 = ms \/ stuck st2 p2.
+  delivered os ++ delivered os2 = ms \/ stuck P c st2 p2.
 Proof.
   intros OK IL S F R M R2.
   pose proof (run_app P c iv evs (repeat Call n) _ _ _ _ _ _ _ _ R R2) as RA.
@@ -180,4 +180,104 @@ Proof.
   pose proof (channel_roundtrip P c iv ms w sst _ _ _ _ OK IL S FA RA) as H.
   destruct (eventually_settled P c iv evs os st pipe n os2 st2 p2 (ok_blk _ OK) R M R2) as [D|St]; [|now right].
   left. rewrite D, app_nil_r, delivered_app in H. exact H.
+Qed.
+
+(* ---- an honest stream never fills the receive buffer --------------------------------------------- *)
+Lemma trace_good P c iv : prims_ok P -> link_fits P -> forall ms st recs, 0 <= s_chunk st ->
+  trace P c iv st ms recs -> good P c recs.
+Proof.
+  intros [B ML DE EL EB] [RB _]. induction ms as [|m r IH]; intros st [|[l t] rr] Hch T; cbn in T; try contradiction; [constructor|].
+  destruct T as (w & st1 & S1 & Hw & Nl & T1).
+  destruct (send_record P c iv iv ML DE EL EB (fun _ => eq_refl) st m w st1 Hch S1)
+    as (line' & tag' & Hw' & Fl' & Lt' & _ & _ & _ & Hc1 & _).
+  pose proof (send_len P c iv ML EL EB st m w st1 Hch S1) as SL.
+  rewrite Hw in Hw'. apply app_inv_head in Hw'.
+  destruct (app_nl_inj _ _ _ _ Nl Fl' Hw') as [<- <-].
+  constructor; [|exact (IH st1 rr Hc1 T1)].
+  cbn [fst snd]. split; [exact Nl|]. split; [exact Lt'|].
+  rewrite Hw in SL. unfold rbytes, blen in *. cbn [fst snd]. rewrite app_length in SL.
+  destruct (encr c && negb (s_iv_sent st)); cbn [length] in SL; lia.
+Qed.
+
+Lemma trace_wire P c iv : prims_ok P -> forall ms st recs w st', 0 <= s_chunk st ->
+  trace P c iv st ms recs -> send_all P c iv st ms = Some (w, st') ->
+  w = (match ms with [] => [] | _ => if encr c && negb (s_iv_sent st) then iv else [] end) ++ flat recs.
+Proof.
+  intros [B ML DE EL EB]. induction ms as [|m r IH]; intros st [|[l t] rr] w st' Hch T H; cbn in T; try contradiction.
+  - cbn in H. injection H as <- _. reflexivity.
+  - destruct T as (w1 & st1 & S1 & Hw & Nl & T1).
+    cbn [send_all] in H. rewrite S1 in H.
+    destruct (send_all P c iv st1 r) as [[w2 st2]|] eqn:S2; [|discriminate]. injection H as <- _.
+    destruct (send_record P c iv iv ML DE EL EB (fun _ => eq_refl) st m w1 st1 Hch S1)
+      as (_ & _ & _ & _ & _ & _ & _ & Hi & Hc1 & _).
+    rewrite (IH st1 rr w2 st2 Hc1 T1 S2), Hw. unfold flat, rbytes. cbn [map concat fst snd].
+    assert (Z : (match r with [] => [] | _ => if encr c && negb (s_iv_sent st1) then iv else [] end) = []).
+    { destruct r; [reflexivity|]. rewrite Hi. destruct (encr c), (s_iv_sent st); reflexivity. }
+    rewrite Z. cbn [app]. rewrite <- !app_assoc. reflexivity.
+Qed.
+
+Theorem honest_never_stuck P c iv ms w sst evs os st pipe :
+  prims_ok P -> link_fits P -> length iv = blklen P ->
+  send_all P c iv (sstate0 c iv) ms = Some (w, sst) ->
+  fed evs = w ->
+  run P c iv rstate0 [] evs = (os, st, pipe) ->
+  ~ stuck P c st pipe.
+Proof.
+  intros OK LF IL S F R.
+  assert (Hch : 0 <= s_chunk (sstate0 c iv)) by (cbn; lia).
+  destruct (trace_exists P c iv OK ms _ _ _ Hch S) as [recs T].
+  pose proof (trace_good P c iv OK LF ms _ recs Hch T) as G.
+  pose proof (trace_wire P c iv OK ms _ recs w sst Hch T S) as HW.
+  destruct (frag_invariant P c iv evs rstate0 [] os st pipe (wf0 P c (ok_blk _ OK)) R) as [_ W].
+  apply (never_stuck P c (ok_blk _ OK) recs st pipe G (proj2 LF) W).
+  apply (inv_run P c iv (ok_blk _ OK) recs evs G rstate0 [] os st pipe (wf0 P c (ok_blk _ OK)) R).
+  unfold inv, rem. cbn [rstate0 r_buf r_iv negb app]. rewrite F, andb_true_r.
+  cbn [sstate0 s_iv_sent negb] in HW. rewrite andb_true_r in HW.
+  destruct (encr c).
+  - destruct ms; [destruct recs; [left; exact HW|cbn in T; contradiction]|]. right. exists iv. split; [exact IL|exact HW].
+  - exists O. cbn [skipn]. destruct ms; exact HW.
+Qed.
+
+(* every accepted sequence IS delivered: completely, exactly once, in order, after any fragmentation and any
+   call pattern, as soon as Receive has been called more than mu times after the last byte arrived *)
+Theorem roundtrip_eventually P c iv ms w sst evs os st pipe n os2 st2 p2 :
+  prims_ok P -> link_fits P -> length iv = blklen P ->
+  send_all P c iv (sstate0 c iv) ms = Some (w, sst) ->
+  fed evs = w ->
+  run P c iv rstate0 [] evs = (os, st, pipe) ->
+  (mu st pipe < n)%nat ->
+  run P c iv st pipe (repeat Call n) = (os2, st2, p2) ->
+  delivered os ++ delivered os2 = ms.
+Proof.
+  intros OK LF IL S F R M R2.
+  destruct (roundtrip_eventually_or_stuck P c iv ms w sst evs os st pipe n os2 st2 p2 OK IL S F R M R2) as [D|St]; [exact D|].
+  exfalso.
+  pose proof (run_app P c iv evs (repeat Call n) _ _ _ _ _ _ _ _ R R2) as RA.
+  assert (FA : fed (evs ++ repeat Call n) = w) by (rewrite fed_app, fed_calls, app_nil_r; exact F).
+  exact (honest_never_stuck P c iv ms w sst _ _ _ _ OK LF IL S FA RA St).
+Qed.
+
+(* ---- integrity without any premise on an IV: links without encryption ----------------------------- *)
+Theorem stream_integrity_auth_only P c iv ms recs s :
+  prims_ok P -> auth c = true -> encr c = false ->
+  trace P c iv (sstate0 c iv) ms recs -> no_forgery P 1 recs s ->
+  exists n, stream_deliveries P c iv rstate0 s = firstn n ms.
+Proof.
+  intros [B ML DE EL EB] A E T NF.
+  unfold stream_deliveries. cbn [rstate0 r_buf r_iv negb app]. rewrite E. cbn [andb].
+  assert (Hch : 0 <= s_chunk (sstate0 c iv)) by (cbn; lia).
+  eapply (integrity_records P c iv iv ML DE EL EB (fun _ => eq_refl) A); try eassumption.
+  split; [reflexivity|]. cbn [core_of rstate0 r_hist k_hist sstate0 s_hist]. rewrite E. reflexivity.
+Qed.
+
+Theorem channel_integrity_auth_only P c iv ms recs evs os st pipe :
+  prims_ok P -> auth c = true -> encr c = false ->
+  trace P c iv (sstate0 c iv) ms recs -> no_forgery P 1 recs (fed evs) ->
+  run P c iv rstate0 [] evs = (os, st, pipe) ->
+  delivered os = firstn (length (delivered os)) ms.
+Proof.
+  intros OK A E T NF R.
+  destruct (stream_integrity_auth_only P c iv ms recs (fed evs) OK A E T NF) as [n Hn].
+  rewrite (frag_invariance _ _ _ _ _ _ _ (ok_blk _ OK) R) in Hn.
+  eapply prefix_of_prefix. exact Hn.
 Qed.
